@@ -179,7 +179,9 @@ class Emitter:
         if f == "never":
             return ("never",)
         if f == "opaque":
-            return UNKNOWN
+            # optional vocabulary key `opaque_types: {text without blanks: type}`: what a `dyn Trait` / `impl Trait`
+            # type is modelled as (`&mut dyn std::io::Write` -> the scripted writer), whatever the parameter is called
+            return self.v.get("opaque_types", {}).get(ty.text.replace(" ", ""), UNKNOWN)
         if f == "path":
             name = ty.segs[-1]
             al = self.v.get("type_alias", {})
